@@ -26,7 +26,8 @@ TECHNIQUE = "runtime monitoring: input-table snapshot at call vs return/unwind o
 CASES = {"quick": 96, "thorough": 4000}
 BUDGET = {"quick": 60, "thorough": 1500}
 CASE_TIMEOUT = 300
-CALCS = ["runpp", "runpp_bfsw", "rundcpp", "runopp", "rundcopp", "runpp_3ph", "calc_sc", "calc_sc_1ph", "estimate", "run_contingency", "run_control"]
+CALCS = ["runpp", "runpp_bfsw", "rundcpp", "runopp", "rundcopp", "runpp_3ph", "calc_sc", "calc_sc_1ph", "estimate", "run_contingency"]
+# run_control is not among the calculations of the property: controllers write set-points (tap_pos ...) on purpose
 FLOORS = {"quick": {"nontrivial": 30, "extras": {"injected_runs": 2500, "distinct_crash_points": 1200, "natural_failures": 20, "fault_propagated": 1500},
                     "tags": {("calc:" + c): 3 for c in CALCS}, "max_skip_frac": 0.5},
           "thorough": {"nontrivial": 1500, "extras": {"injected_runs": 150000}, "tags": {("calc:" + c): 150 for c in CALCS}, "max_skip_frac": 0.5}}
